@@ -119,10 +119,14 @@ class P:
         chains = ["a not in b && c", "not (a > b) || c", "c && a not in b", "x not in [1, 2] == flag", "a not in b not in c", "(a not in b) + 1 + 2 + 3",
                   "a + b + c + d + e", "a = b = c = d", "a - b not == c - d && e", "not a || b || c", "-a + b + c", "a++ + b + c", "f(a) + b + c + d",
                   "[a] + b + c", "(a ? b : c) + d + e", "a || b not in c || d not in e || f", "a * b + c * d - e * f", "a == b not beginWith c",
-                  "not (not (a in b) && c) || d", "! (a not in b) && c", "a += b not in c", "(a not == b) not == c"]
+                  "not (not (a in b) && c) || d", "! (a not in b) && c", "a += b not in c", "(a not == b) not == c",
+                  # runs of DIFFERENT postfix operators, of prefix operators, and both around one operand
+                  "a ++ --", "a -- ++", "(a ++) --", "a ++ -- ++", "- a ++ --", "a ++ -- + b -- ++", "- ! - a", "! - a ++ --", "[a ++ --, b -- ++ --]",
+                  "f(a ++ --) -- ++", "{a ++ -- : b -- ++}", "a ++ -- ? b -- ++ : c ++ ++ --"]
         rnd_programs = ["; ".join(progs.render_min(t, PT) for t in progs.gen_stmts(rng, rng.choice([2, 3, 4]))) for _ in range(120 if tier == "quick" else 3000)]
         allk = [(k, name1.get(k, "")) for k in KINDS]
-        for cfg in ([], allk, [("U", "not")], [("U", "not"), ("B", "&&"), ("B", "in"), ("B", "+")], [("B", "||"), ("B", "=="), ("B", "+"), ("R", "a")]):
+        for cfg in ([], allk, [("U", "not")], [("U", "not"), ("B", "&&"), ("B", "in"), ("B", "+")], [("B", "||"), ("B", "=="), ("B", "+"), ("R", "a")],
+                    [("P", "++"), ("P", "--"), ("U", "-")], [("P", "--"), ("U", "!")]):
             sds = ["SD:%s:%s" % (k, hx(n)) for k, n in cfg]
             items.append((" ".join(sds + ["PARSE:" + hx(p) for p in chains + rnd_programs]), (set(cfg), len(sds), chains + rnd_programs)))
         for cfg in configs:
